@@ -77,6 +77,13 @@ z3.RecAddDefinition(slsize, [_l], z3.If(SList.is_Nil(_l), z3.IntVal(0),
 slen = z3.RecFunction("slen", SList, I)
 z3.RecAddDefinition(slen, [_l], z3.If(SList.is_Nil(_l), z3.IntVal(0), 1 + slen(SList.init(_l))))
 
+# first item / all-but-first items of a snoc list (the parsers consume S-expressions from the front)
+sfirst = z3.RecFunction("sfirst", SList, SExp)
+srest = z3.RecFunction("srest", SList, SList)
+z3.RecAddDefinition(sfirst, [_l], z3.If(SList.is_Nil(SList.init(_l)), SList.last(_l), sfirst(SList.init(_l))))
+z3.RecAddDefinition(srest, [_l], z3.If(SList.is_Nil(_l), SList.Nil,
+                                       z3.If(SList.is_Nil(SList.init(_l)), SList.Nil, SList.Snoc(srest(SList.init(_l)), SList.last(_l)))))
+
 # ---- expression-tree semantics ---------------------------------------------------------------------
 # val(tree, stored) : value of a tree under the current stored_value array of PDDLFunction objects
 _t = z3.Const("_t", Tree)
@@ -148,6 +155,8 @@ SPEC_FUNCS = {
     "wf_slist": (wf_slist, ["slist"], "bool"),
     "ssize": (ssize, ["sexp"], "int"),
     "slen": (slen, ["slist"], "int"),
+    "sfirst": (sfirst, ["slist"], "sexp"),
+    "srest": (srest, ["slist"], "slist"),
     "wf_arith": (wf_arith, ["tree"], "bool"),
     "theight": (theight, ["tree"], "int"),
 }
